@@ -78,6 +78,11 @@ def run_case(case, cid):
     matrix = case["kind"].endswith("Matrix")
     nm = pure.Namer(case["labels"], matrix)
     model = cls(case["terms"])
+    if case["kind"] != "dict" and cid % 5 == 0:
+        # a model object with history: a term over one more label came and went (its caches still mention the label)
+        extra = 7 if matrix else "__gone"
+        model[(extra,)] += 1
+        model[(extra,)] -= 1
     snap = copy.deepcopy(model)
     rec = pure.blank(cid, case["op"])
     rec["spin"] = rec["result_spin"] = case["spin"]
